@@ -1,0 +1,24 @@
+//go:build !verif
+// +build !verif
+
+package service
+
+// Verification hooks (see verif_on.go). Without the "verif" build tag they are
+// empty and inline to nothing.
+
+// Kinds for verifMark.
+const (
+	verifMarkWrite = iota
+	verifMarkStop
+	verifMarkRetainBegin
+	verifMarkRetainEnd
+	verifMarkLookupBegin
+	verifMarkLookupEnd
+	verifMarkSubscribers
+)
+
+func verifEvent(kind string, svc *service, arg int) {}
+
+func verifYield(point string, obj interface{}) {}
+
+func verifMark(kind int, svc *service) {}
